@@ -140,7 +140,7 @@ def main(ctx):
     ctx.cov["distinct_nontrivial"] = len(getattr(ctx, "_rb_cells", ())) + len(getattr(ctx, "_cells", ()))
     ctx.cov["rule"] = ("inputs: for every JsonText machine state (TLC cover, BFS-shortest witness) x every byte-class representative and "
                        "structural byte x every continuation over the 20-byte structural alphabet (length <= 1 for all bytes / <= 2 for "
-                       "structural bytes in quick; <= 1 / <= 3 (<= 2 inside containers) in thorough; SEN front-ends <= 1), plus 21 \"confusion\" continuations, each also followed by the state's closers; valid documents "
+                       "structural bytes in quick; <= 1 / <= 3 (<= 2 inside containers) in thorough; SEN front-ends <= 1), plus 21 \"confusion\" continuations, each also followed by the state's closers; the same cases behind three embedding prefixes that contain earlier tokens (\\uXXXX string with a surrogate pair, literals, a number with fraction and exponent, newlines) and with the token straddling the 4096-byte refill; valid documents "
                        "truncated at every offset and with 1-3 byte mutations (also through 1-byte readers); SEN seeds (comments, ' strings, "
                        "+ concatenation, token functions) x every prefix x SEN-alphabet byte x continuation; every path/filter string over a "
                        "26-symbol alphabet up to length 3 (quick) / 4 (thorough) bare and inside filter prefixes, plus mutations of 31 valid "
